@@ -142,7 +142,8 @@ def patchMsetLeaf (m : Opts) (a remove add : List Json) : Outcome Json :=
 def patchFresh (merge : Bool) (n : Json) : (pa : Path) → (before remove add after : List Json) → Outcome Json
   | pa, before, remove, add, after =>
     if pa.isLeaf then
-      if remove.length > 1 || add.length > 1 then .err
+      if !pa.isEmpty && !merge then .err   -- a set / multiset element addressed to a non-array
+      else if remove.length > 1 || add.length > 1 then .err
       else if merge then
         (if (Json.singleValue remove).isVoid then .ok (Json.singleValue add) else .err)
       else if equals [] n (Json.singleValue remove) then .ok (Json.singleValue add)
